@@ -6,6 +6,7 @@ C19 line-protocol driver (see harness/internal/c19/c19.go for the grammar).
 import CaddyModel.C19.Model
 import CaddyModel.C19.ClientAuth
 import CaddyModel.C19.Caddyfile
+import CaddyModel.C19.Quic
 
 namespace CaddyModel.C19
 
@@ -364,7 +365,25 @@ def runCf2 (subs : List Sub) : String :=
           showServed (serve strict [own] (some own) (own ++ port))
       one "A" a bb (str ":443") ++ " " ++ one "B" bb a (str ":8443")
 
+def parseQuicOp (t : String) : Option QOp :=
+  match t.toList with
+  | ['p'] => some .probe
+  | ['o', c] => if '1' ≤ c ∧ c ≤ '9' then some (.open (c.toNat - 48)) else none
+  | ['c', c] => if '1' ≤ c ∧ c ≤ '9' then some (.close (c.toNat - 48)) else none
+  | _ => none
+
+def showQuicAnswer : Option Nat → String
+  | some k => "a" ++ toString k
+  | none => "a-"
+
 def handle : List String → String
+  | ["quic", ops] =>
+    match (ops.splitOn ",").mapM parseQuicOp with
+    | none => "bad-op"
+    | some l =>
+      match qrun allWrapped QState.init [] l with
+      | none => "bad-op"
+      | some (_, answers) => if answers.isEmpty then "-" else " ".intercalate (answers.map showQuicAnswer)
   | ["cf2", subs] =>
     if subs == "." then runCf2 []
     else if subs == "" then "bad-op"
